@@ -132,43 +132,38 @@ def twin_node(zone, n):
     return tw
 
 
-def twin_nodes(m):
-    if isinstance(m, dns.btree.BTree):
-        try:
-            return dns.btree.BTreeDict(original=m)
-        except ValueError:
-            tw = dns.btree.BTreeDict()
-            for k, v in m.items():
-                tw[k] = v
-            return tw
-    return dict(m.items())
+def twin_deleg(d, members):
+    if d._immutable:
+        return dns.btreezone.Delegations(original=d)  # copy-on-write clone of the frozen set
+    tw = dns.btreezone.Delegations()
+    for k in members:
+        tw.add(k)
+    return tw
 
 
-def twin_deleg(d):
-    try:
-        return dns.btreezone.Delegations(original=d)
-    except ValueError:
-        tw = dns.btreezone.Delegations()
-        for k in d:
-            tw.add(k)
-        return tw
+def capture(version):
+    """the content of a version as plain data, taken before any mutation attempt"""
+    return [(name, [twin_rdataset(r) for r in node.rdatasets]) for name, node in version.items()]
 
 
-def scratch_zone(zclass, relativize, version):
+def scratch_writer(zclass, relativize, content):
+    """an open write transaction of a scratch zone holding `content`"""
     z = base.ZCLASSES[zclass](ORIGIN, relativize=relativize)
+    if not content:
+        return z.writer(True)
     with z.writer(True) as txn:
-        for name, node in version.items():
-            for r in node.rdatasets:
+        for name, rdss in content:
+            for r in rdss:
                 txn.add(name, twin_rdataset(r))
     z.set_max_versions(None)
-    return z
+    return z.writer()
 
 
-def twin_plainzone(relativize, version):
+def twin_plainzone(relativize, content):
     z = dns.zone.Zone(ORIGIN, relativize=relativize)
-    for name, node in version.items():
+    for name, rdss in content:
         n = dns.node.Node()
-        n.rdatasets = [twin_rdataset(r) for r in node.rdatasets]
+        n.rdatasets = [twin_rdataset(r) for r in rdss]
         z.nodes[name] = n
     return z
 
@@ -265,6 +260,41 @@ def pools(env, kind, target):
                         "rds_new": E.rds_new, "node_new": E.node_new, "5": lambda: 5})
     P["*"] = generic
     P["value"] = generic
+    # containers: what "key" / "value" / "other" mean depends on the container
+    if kind == "rdatasets":
+        idx = {"0": lambda: 0, "slice": lambda: slice(0, 1)}
+        elems = {"rds_new": E.rds_new, "elem0": lambda: target[0]}
+        generic.update(elems)
+        P.update({"key": idx, "index": idx, "value": elems, "object": elems,
+                  "iterable": {"list_rds_new": lambda: [E.rds_new()]}})
+    elif kind == "rdsitems":
+        P.update({"key": rdish, "value": {"None": lambda: None}, "default": {"None": lambda: None}})
+    elif kind == "nodes":
+        maps = {"map_absent": lambda: {E.absent: E.node_new()}, "pairs_absent": lambda: [(E.absent, E.node_new())]}
+        P.update({"key": keyish, "value": {"node_new": E.node_new}, "default": {"node_new": E.node_new}, "other": maps})
+        if isinstance(target, dns.btree.BTree):
+            # the element objects are shared between a frozen tree and its copy-on-write clone
+            P["element"] = dict(P["element"])
+            P["element"]["elt_present"] = lambda: target.get_element(E.present)
+    elif kind == "delegations":
+        members = list(target)
+        dk = {"absent": lambda: E.absent}
+        if members:
+            dk["member"] = lambda: members[0]
+        sets = {"list_absent": lambda: [E.absent], "set_member": lambda: set(members[:1]), "set_absent": lambda: {E.absent},
+                "set_mixed": lambda: set(members[:1]) | {E.absent}}
+        generic.update(dk)
+        generic.update(sets)
+        P.update({"key": dk, "value": dk, "x": dk, "other": sets, "it": sets})
+        if members:
+            P["element"] = dict(P["element"])
+            P["element"]["elt_present"] = lambda: target.get_element(members[0])
+    elif kind == "version":
+        dn = dict(keyish)
+        if hasattr(target, "delegations") and len(target.delegations) > 0:
+            d0 = list(target.delegations)[0]
+            dn["deleg"] = lambda: d0
+        P.update({"name": dn, "is_glue": {"False": lambda: False, "True": lambda: True}})
     return P
 
 
@@ -426,19 +456,37 @@ def probe(zclass, relativize, fresh, which, tid):
     other = zone.reader()  # a second reader, on the newest version: must not be affected either
     version = txn.version
     env = Env(zone, relativize, version)
+    content = capture(version)
     trace["vkind"] = type(version).__name__
     trace["vid"] = int(version.id)
 
     def world():
         return safe_digest(lambda z: (p_zone(z), p_txn(txn), p_txn(other)), zone)
 
-    probe_object(ev, "txn", "txn", txn, lambda: scratch_zone(zclass, relativize, version).writer(), p_txn, env, world)
-    probe_object(ev, "version", "txn.version", version,
-                 lambda: scratch_zone(zclass, relativize, version).writer().version, p_version, env, world)
-    probe_object(ev, "nodes", "txn.version.nodes", version.nodes, lambda: twin_nodes(version.nodes), p_nodes, env, world)
+    # collect every reachable object BEFORE the first mutation attempt
+    targets = []
+    targets.append(("txn", "txn", txn, lambda: scratch_writer(zclass, relativize, content), p_txn))
+    targets.append(("version", "txn.version", version,
+                    lambda: scratch_writer(zclass, relativize, content).version, p_version))
+    nodes_obj = version.nodes
+    entries = list(nodes_obj.items())
+    if isinstance(nodes_obj, dns.btree.BTree) and nodes_obj._immutable:
+        def mk_nodes():
+            return dns.btree.BTreeDict(original=nodes_obj)  # copy-on-write clone of the frozen tree
+    elif isinstance(nodes_obj, dns.btree.BTree):
+        def mk_nodes():
+            tw = dns.btree.BTreeDict()
+            for k, v in entries:
+                tw[k] = v
+            return tw
+    else:
+        def mk_nodes():
+            return dict(entries)
+    targets.append(("nodes", "txn.version.nodes", nodes_obj, mk_nodes, p_nodes))
     if hasattr(version, "delegations"):
-        probe_object(ev, "delegations", "txn.version.delegations", version.delegations,
-                     lambda: twin_deleg(version.delegations), p_deleg, env, world)
+        dobj = version.delegations
+        members = list(dobj)
+        targets.append(("delegations", "txn.version.delegations", dobj, lambda: twin_deleg(dobj, members), p_deleg))
     seen = set()
     nodes = []
     for name in list(version.keys()):
@@ -447,9 +495,10 @@ def probe(zclass, relativize, fresh, which, tid):
                 seen.add(id(node))
                 nodes.append(("%s(%s)" % (how, name.to_text()), node))
     for label, node in nodes:
-        probe_object(ev, "node", label, node, lambda node=node: twin_node(zone, node), p_node, env, world)
-        probe_object(ev, "rdatasets", label + ".rdatasets", node.rdatasets,
-                     lambda node=node: [twin_rdataset(r) for r in node.rdatasets], p_seq, env, world)
+        targets.append(("node", label, node, lambda node=node: twin_node(zone, node), p_node))
+        spec = [twin_rdataset(r) for r in node.rdatasets]
+        targets.append(("rdatasets", label + ".rdatasets", node.rdatasets,
+                        lambda spec=spec: [twin_rdataset(r) for r in spec], p_seq))
     rdss = []
     for label, node in nodes:
         for r in node.rdatasets:
@@ -467,14 +516,19 @@ def probe(zclass, relativize, fresh, which, tid):
                 seen.add(id(r))
                 rdss.append(("get(%s,%s)" % (name.to_text(), dns.rdatatype.to_text(ty)), r))
     for label, r in rdss:
-        probe_object(ev, "rdataset", label, r, lambda r=r: twin_rdataset(r), p_rdataset, env, world)
-        probe_object(ev, "rdsitems", label + ".items", r.items, lambda r=r: dict((k, r.items[k]) for k in r.items),
-                     p_items, env, world)
+        spec = twin_rdataset(r)
+        targets.append(("rdataset", label, r, lambda spec=spec: twin_rdataset(spec), p_rdataset))
+        ispec = [(k, r.items[k]) for k in r.items]
+        targets.append(("rdsitems", label + ".items", r.items, lambda ispec=ispec: dict(ispec), p_items))
     # the zone's own (non-transactional) API, reached as txn.manager / version.zone
-    z2 = txn.manager
-    probe_object(ev, "zone", "txn.manager", z2, lambda: twin_plainzone(relativize, version), p_plainzone
-                 if False else p_zone_any, env, world)
-    ev.append({"op": "end", "world": world()})
+    targets.append(("zone", "txn.manager", txn.manager, lambda: twin_plainzone(relativize, content), p_zone_any))
+    trace["objects"] = len(targets)
+    for kind, label, obj, mk, proj in targets:
+        try:
+            probe_object(ev, kind, label, obj, mk, proj, env, world)
+        except Exception as e:  # noqa: BLE001 - an event nobody matches
+            ev.append({"op": "probe-crashed", "kind": kind, "label": label, "exc": repr(e)[:200]})
+    ev.append({"op": "end", "world": world(), "rich": not fresh})
     return trace
 
 
